@@ -16,7 +16,11 @@ NonNull(S) == S \ {0}
 Range(s) == {s[i] : i \in 1..Len(s)}
 
 \* append: always succeeds (no allocation failure injected)
-MayFail(s, need, c) == c.ret = -1 /\ need >= BigLen
+\* ... or because the harness made an allocation request of this very call fail (c.fault = 1: the failure was
+\* actually delivered to the library): then the call may report -1, the sequence is as it was and the value stays
+\* with the caller (C08 on every history the model generates)
+FaultOf(c) == IF "fault" \in DOMAIN c THEN c.fault ELSE 0
+MayFail(s, need, c) == c.ret = -1 /\ (need >= BigLen \/ FaultOf(c) = 1)
 AddStep(s, c) == IF c.ret = 0 THEN Yes(Append(s, c.v), {})
                  ELSE IF MayFail(s, Len(s) + 1, c) THEN Yes(s, {}) ELSE No(s)
 
@@ -47,6 +51,7 @@ DelStep(s, c) ==
 
 \* shrink-to-fit with k spare slots: contents unchanged
 ShrinkStep(s, c) == IF c.ret = 0 THEN Yes(s, {})
+                    ELSE IF c.ret = -1 /\ FaultOf(c) = 1 THEN Yes(s, {})
                     ELSE IF IsBig(c.count) /\ c.ret = -1 THEN Yes(s, {})
                     ELSE IF MayFail(s, Len(s) + c.count.n, c) THEN Yes(s, {}) ELSE No(s)
 
